@@ -4,6 +4,7 @@ import (
 	"fmt"
 	"go/ast"
 	"go/token"
+	"go/types"
 	"strings"
 
 	"verif/checker/internal/flow"
@@ -24,6 +25,12 @@ func init() {
 			"Not decided: the payload round trip per byte value, the choice between encodings as such, minify.Mediatype (quoted strings with escaped quotes are not recognised by it — observation, DESIGN §5).",
 		Run: runC18,
 	})
+	mutant(&Mutant{Name: "c18-mediatype-escaped-quote-ends-string", Property: "C18", File: "common.go",
+		Old: "\t\tif escaped {\n\t\t\tescaped = false\n\t\t} else if !inString && parse.IsWhitespace(c) {", New: "\t\tif escaped && c != '\"' {\n\t\t\tescaped = false\n\t\t} else if !inString && parse.IsWhitespace(c) {",
+		Rule: "R18.7", Construct: "quote toggles the string state only when not escaped"})
+	mutant(&Mutant{Name: "c18-mediatype-lowercase-in-output-coordinates", Property: "C18", File: "common.go",
+		Old: "\t\t\t} else {\n\t\t\t\tlower = i + 1\n\t\t\t}\n", New: "\t\t\t} else {\n\t\t\t\tlower = j + (i + 1 - start)\n\t\t\t}\n",
+		Rule: "R18.8", Construct: "in input coordinates"})
 	mutant(&Mutant{Name: "c18-default-type-cut-as-a-prefix", Property: "C18", File: "common.go",
 		Old: "parse.EqualFold(mediatype[:len(\"text/plain\")], textMimeBytes) && (len(mediatype) == len(\"text/plain\") || mediatype[len(\"text/plain\")] == ';') {", New: "parse.EqualFold(mediatype[:len(\"text/plain\")], textMimeBytes) {",
 		Rule: "R18.1", Construct: "default media type"})
@@ -202,4 +209,201 @@ func runC18(c *Ctx) {
 		c.r115()
 		c.r118()
 	})
+	c.r187()
+}
+
+// R18.7 / R18.8: Mediatype finds the quoted strings and leaves them alone.
+func (c *Ctx) r187() {
+	const r7, r8 = "R18.7", "R18.8"
+	c.R.Rule(r7, "inside a quoted-string of a media type a backslash escapes the next byte (RFC 7231 quoted-pair), so `\\\"` does not end the string and `\\\\\"` does. minify.Mediatype decides with one flag whether a quote toggles the in-string state: every statement `inString = !inString` is dominated by the false outcome of a test of a boolean escape flag, and that flag is set only by an assignment whose condition (its right-hand side, or the tests dominating `= true`) conjoins `c == '\\\\'`, the in-string state and the negated flag. A look-behind at the previous byte cannot tell the two cases apart; no escape handling at all takes `\\\"` for the end of the string, and what follows is lower-cased and loses its spaces")
+	c.R.Rule(r8, "minify.Mediatype compacts in place: bytes are moved to the output cursor only when white space is met, until then they sit at their input positions. Every slice handed to parse.ToLower therefore has bounds in input coordinates — built from the loop index and constants, through variables that are only ever assigned such values — and does not mention a variable that is advanced by a copy. A bound in output coordinates applied to bytes that were not moved yet reaches into a string: `a  =  \"ABCDEF\";b=\"x\"` became `a=\"ABCdef\";b=\"x\"`")
+	pk := c.pkg(r7, "")
+	if pk == nil {
+		return
+	}
+	info := pk.TypesInfo
+	fd := c.fn(r7, pk, "Mediatype")
+	if fd == nil {
+		return
+	}
+	g := c.graph(pk, fd)
+	// --- R18.7
+	var toggles []*flow.Node
+	for _, y := range g.Nodes {
+		as, ok := y.Stmt.(*ast.AssignStmt)
+		if !ok || y.Kind != flow.KStmt || len(as.Lhs) != 1 || len(as.Rhs) != 1 {
+			continue
+		}
+		if u, ok := ast.Unparen(as.Rhs[0]).(*ast.UnaryExpr); ok && u.Op == token.NOT && nospace(str(u.X)) == nospace(str(as.Lhs[0])) {
+			toggles = append(toggles, y)
+		}
+	}
+	if len(toggles) == 0 {
+		c.R.Unres(r7, "minify.Mediatype/in-string toggle", c.pos(fd), "no statement `x = !x` found")
+	}
+	isBoolVar := func(e ast.Expr) types.Object {
+		id, ok := ast.Unparen(e).(*ast.Ident)
+		if !ok {
+			return nil
+		}
+		o := info.Uses[id]
+		if o == nil {
+			return nil
+		}
+		if bt, ok := o.Type().Underlying().(*types.Basic); ok && bt.Info()&types.IsBoolean != 0 {
+			return o
+		}
+		return nil
+	}
+	for i, y := range toggles {
+		state := info.Uses[y.Stmt.(*ast.AssignStmt).Lhs[0].(*ast.Ident)]
+		var flag types.Object
+		for _, f := range g.DomFacts(y) {
+			if f.Test.Kind != flow.KCond || f.Value {
+				continue
+			}
+			if o := isBoolVar(f.Test.Expr); o != nil && o != state {
+				flag = o
+			}
+		}
+		good := false
+		why := "the toggle is not behind the false outcome of an escape flag"
+		if flag != nil {
+			// every assignment of the flag that can make it true
+			sets, okSets := 0, 0
+			for _, z := range g.Nodes {
+				as, ok := z.Stmt.(*ast.AssignStmt)
+				if !ok || z.Kind != flow.KStmt {
+					continue
+				}
+				for k, l := range as.Lhs {
+					id, ok := l.(*ast.Ident)
+					if !ok || (info.Uses[id] != flag && info.Defs[id] != flag) || k >= len(as.Rhs) {
+						continue
+					}
+					rhs := nospace(str(as.Rhs[k]))
+					if rhs == "false" {
+						continue
+					}
+					sets++
+					// the conjuncts under which the flag becomes true: of the right-hand side, or of the dominating tests
+					type lit struct {
+						e   ast.Expr
+						pos bool
+					}
+					var lits []lit
+					var split func(e ast.Expr, pos bool)
+					split = func(e ast.Expr, pos bool) {
+						e = ast.Unparen(e)
+						if be, ok := e.(*ast.BinaryExpr); ok && be.Op == token.LAND && pos {
+							split(be.X, pos)
+							split(be.Y, pos)
+							return
+						}
+						if u, ok := e.(*ast.UnaryExpr); ok && u.Op == token.NOT {
+							split(u.X, !pos)
+							return
+						}
+						lits = append(lits, lit{e, pos})
+					}
+					if rhs == "true" {
+						for _, f := range g.DomFacts(z) {
+							if f.Test.Kind == flow.KCond {
+								split(f.Test.Expr, f.Value)
+							}
+						}
+					} else {
+						split(as.Rhs[k], true)
+					}
+					hasBackslash, hasState, hasNotFlag := false, false, false
+					for _, l := range lits {
+						if id, ok := l.e.(*ast.Ident); ok {
+							if info.Uses[id] == state && l.pos {
+								hasState = true
+							}
+							if info.Uses[id] == flag && !l.pos {
+								hasNotFlag = true
+							}
+						}
+						if be, ok := l.e.(*ast.BinaryExpr); ok && be.Op == token.EQL && l.pos {
+							for _, side := range []ast.Expr{be.X, be.Y} {
+								if tv, ok := info.Types[side]; ok && tv.Value != nil && tv.Value.ExactString() == "92" {
+									hasBackslash = true
+								}
+							}
+						}
+					}
+					if hasBackslash && hasState && hasNotFlag {
+						okSets++
+					}
+				}
+			}
+			good = sets > 0 && sets == okSets
+			why = fmt.Sprintf("the escape flag %s is set by %d assignment(s), %d of them under `c == '\\' && %s && !%s`", flag.Name(), sets, okSets, state.Name(), flag.Name())
+		}
+		c.R.Check(good, r7, fmt.Sprintf("minify.Mediatype/quote toggles the string state only when not escaped#%d", i+1), c.pos(y.Ast()), why, why+": an escaped quote inside a quoted-string (`a=\"x\\\"Y z\"`) ends the string for the minifier, so the rest of the value is lower-cased and stripped of spaces — or, with a look-behind at one byte, `\"…\\\\\"` is not seen as closed and the following strings are rewritten")
+	}
+	// --- R18.8
+	moved := map[types.Object]bool{} // advanced by a copy
+	ast.Inspect(fd.Body, func(x ast.Node) bool {
+		as, ok := x.(*ast.AssignStmt)
+		if !ok {
+			return true
+		}
+		for k, l := range as.Lhs {
+			if id, ok := l.(*ast.Ident); ok && k < len(as.Rhs) && len(findCalls(info, as.Rhs[k], false, "copy")) > 0 {
+				if o := info.Uses[id]; o != nil {
+					moved[o] = true
+				}
+			}
+		}
+		return true
+	})
+	// transitive: variables assigned from expressions mentioning a moved variable
+	mentionsMoved := func(e ast.Node) string {
+		hit := ""
+		ast.Inspect(e, func(x ast.Node) bool {
+			if id, ok := x.(*ast.Ident); ok && moved[info.Uses[id]] {
+				hit = id.Name
+			}
+			return true
+		})
+		return hit
+	}
+	for changed := true; changed; {
+		changed = false
+		ast.Inspect(fd.Body, func(x ast.Node) bool {
+			as, ok := x.(*ast.AssignStmt)
+			if !ok {
+				return true
+			}
+			for k, l := range as.Lhs {
+				id, ok := l.(*ast.Ident)
+				if !ok || k >= len(as.Rhs) {
+					continue
+				}
+				o := info.Uses[id]
+				if o == nil {
+					o = info.Defs[id]
+				}
+				if o != nil && !moved[o] && mentionsMoved(as.Rhs[k]) != "" {
+					moved[o] = true
+					changed = true
+				}
+			}
+			return true
+		})
+	}
+	n8 := 0
+	ast.Inspect(fd.Body, func(x ast.Node) bool {
+		call, ok := x.(*ast.CallExpr)
+		if !ok || calleeName(info, call) != load.ParseMod+".ToLower" || len(call.Args) != 1 {
+			return true
+		}
+		n8++
+		bad := mentionsMoved(call.Args[0])
+		c.R.Check(bad == "", r8, fmt.Sprintf("minify.Mediatype/ToLower(%s) in input coordinates#%d", nospace(str(call.Args[0])), n8), c.pos(call), "bounds from the loop index only", "the range `"+str(call.Args[0])+"` depends on "+bad+", which counts bytes already moved to the front: applied to bytes that still sit at their input positions it reaches into a quoted string (`a  =  \"ABCDEF\";b=\"x\"` → `a=\"ABCdef\";b=\"x\"`)")
+		return true
+	})
+	c.R.Floor(r8, "ToLower calls of Mediatype", n8, 2)
 }
